@@ -203,6 +203,13 @@ Theorem C02_system_matrix_zero : forall rho lg (eqs : list (Z * tree RD)) m eids
 Proof. exact system_matrix_zero. Qed.
 Print Assumptions C02_system_matrix_zero.
 
+(* columns of B that SystemMap blanks out (the lagged token is itself a transition variable) stay empty *)
+Theorem C02_system_matrix_none_column : forall rho lg (eqs : list (Z * tree RD)) m eids cols i c,
+  (i < List.length eids)%nat -> nth_error cols c = Some None ->
+  nth c (nth i (system_matrix RD rho lg eqs m eids cols) []) 0 = 0.
+Proof. exact system_matrix_none_column. Qed.
+Print Assumptions C02_system_matrix_none_column.
+
 (* ---- 5. user functions: the two-sided quotient is the derivative of affine functions (only) --------------- *)
 Theorem C02_user_function_quotient_partial : forall a b x : R,
   is_derive (fun u => a * u + b) x (fd_two_sided (fun u => a * u + b) x).
